@@ -106,7 +106,28 @@ func originPredicates(p *Program) []*ssa.Function {
 			out = append(out, fn)
 		}
 	}
-	return out
+	// helpers of a predicate (only ever called by other predicates) are checked through their callers
+	isPred := map[*ssa.Function]bool{}
+	for _, f := range out {
+		isPred[f] = true
+	}
+	var top []*ssa.Function
+	for _, f := range out {
+		onlyFromPreds, n := true, 0
+		for _, e := range p.callGraph().In[f] {
+			n++
+			if !isPred[topFunc(e.Caller)] || e.Caller == f {
+				onlyFromPreds = false
+			}
+		}
+		if n == 0 || !onlyFromPreds {
+			top = append(top, f)
+		}
+	}
+	if len(top) == 0 {
+		return out
+	}
+	return top
 }
 
 // requestHeaderGet: v is req.Request.Header.Get(name) for the *Request parameter/variable req of fn.
@@ -373,210 +394,291 @@ func ruleC08b(c *Ctx) {
 		return
 	}
 	for _, fn := range preds {
-		name := p.fname(fn)
-		origin := fn.Params[1]
-		// values denoting a whole configured entry: element of AllowedDomains, possibly case-mapped
-		isEntry := func(v ssa.Value) bool {
-			v = strip(v)
-			if call, ok := v.(*ssa.Call); ok {
-				if n := calleeName(&call.Call); n == "strings.ToLower" || n == "strings.ToUpper" {
-					v = strip(call.Call.Args[0])
-				}
+		originPredicateCheck(c, fn, fn.Params[1], 0, map[*ssa.Function]bool{})
+	}
+}
+
+// originPredicateCheck decides the whole-string discipline for one function that receives the origin
+// (or its case-mapped copy) in `origin`; helpers of the CORS type that are handed the origin are
+// checked recursively and their positive answers count as justified when they pass.
+func originPredicateCheck(c *Ctx, fn *ssa.Function, origin *ssa.Parameter, depth int, verified map[*ssa.Function]bool) bool {
+	p := c.P
+	name := p.fname(fn)
+	okAll := true
+	isEntry := func(v ssa.Value) bool {
+		v = strip(v)
+		if call, ok := v.(*ssa.Call); ok {
+			if n := calleeName(&call.Call); n == "strings.ToLower" || n == "strings.ToUpper" {
+				v = strip(call.Call.Args[0])
 			}
-			return isElementOfField(v, "AllowedDomains")
 		}
-		var tainted map[ssa.Value]bool
-		allowEq := func(other ssa.Value) bool {
-			if s, ok := constStr(other); ok && s == "" {
+		return isElementOfField(v, "AllowedDomains")
+	}
+	var tainted map[ssa.Value]bool
+	allowEq := func(other ssa.Value) bool {
+		if s, ok := constStr(other); ok && s == "" {
+			return true
+		}
+		return isEntry(other)
+	}
+	helperCalls := map[*ssa.Call]bool{}
+	allowCall := func(cc *ssa.CallCommon, idx int) bool {
+		if isDynamicCall(cc) {
+			if _, f, ok := fieldLoad(strip(cc.Value)); ok && f.Name() == "AllowedDomainFunc" {
 				return true
 			}
-			return isEntry(other)
 		}
-		allowCall := func(cc *ssa.CallCommon, idx int) bool {
-			// the configured predicate
-			if isDynamicCall(cc) {
-				if _, f, ok := fieldLoad(strip(cc.Value)); ok && f.Name() == "AllowedDomainFunc" {
+		if cc.IsInvoke() && isNamed(cc.Value.Type(), modulePath+"/log", "StdLogger") {
+			return true
+		}
+		// a helper of the CORS type: checked recursively
+		if cal := cc.StaticCallee(); cal != nil && recvTypeName(cal) == corsType && depth < 3 && idx >= 0 && idx < len(cal.Params) && isBoolFunc(cal) {
+			if _, done := verified[cal]; !done {
+				verified[cal] = false
+				verified[cal] = originPredicateCheck(c, cal, cal.Params[idx], depth+1, verified)
+			}
+			return verified[cal]
+		}
+		return false
+	}
+	tainted, bad := wholeStringTaint(p, fn, origin, allowEq, allowCall)
+	eachInstr(fn, func(i ssa.Instruction) {
+		if call, ok := i.(*ssa.Call); ok {
+			if cal := call.Call.StaticCallee(); cal != nil && verified[cal] {
+				for _, a := range call.Call.Args {
+					if tainted[strip(a)] || tainted[a] {
+						helperCalls[call] = true
+					}
+				}
+			}
+		}
+	})
+	if len(bad) == 0 {
+		c.ok(name, "origin used through whole-string operations only", p.pos(fn.Pos()), itoa(len(tainted))+" derived value(s): len, case mapping, equality with a whole AllowedDomains entry, the configured predicate, verified helpers")
+	}
+	for _, b := range bad {
+		okAll = false
+		c.bad(name, "origin used by a partial-match capable operation", p.ipos(b.Instr), b.What+": an origin that merely contains, starts or ends with an allowed entry could be accepted")
+	}
+	facts := factsAt(fn)
+	isWholeEq := func(f condFact) bool {
+		if !f.Pol {
+			return false
+		}
+		switch x := f.Cond.(type) {
+		case *ssa.BinOp:
+			if x.Op != token.EQL {
+				return false
+			}
+			return (tainted[strip(x.X)] && isEntry(x.Y)) || (tainted[strip(x.Y)] && isEntry(x.X))
+		case *ssa.Call:
+			if calleeName(&x.Call) == "strings.EqualFold" {
+				a, b := x.Call.Args[0], x.Call.Args[1]
+				return (tainted[strip(a)] && isEntry(b)) || (tainted[strip(b)] && isEntry(a))
+			}
+			if helperCalls[x] {
+				return true // a verified helper said "listed"
+			}
+		}
+		return false
+	}
+	isWildcard := func(f condFact) bool {
+		if !f.Pol {
+			return false
+		}
+		x, ok := f.Cond.(*ssa.BinOp)
+		if !ok || x.Op != token.EQL {
+			return false
+		}
+		for _, pr := range [][2]ssa.Value{{x.X, x.Y}, {x.Y, x.X}} {
+			if s, ok := constStr(pr[0]); ok && s == ".*" && isElementOfField(strip(pr[1]), "AllowedDomains") {
+				return true
+			}
+		}
+		return false
+	}
+	isNoList := func(f condFact) bool {
+		x, ok := f.Cond.(*ssa.BinOp)
+		if !ok || !f.Pol {
+			return false
+		}
+		call, ok := strip(x.X).(*ssa.Call)
+		if !ok || !isBuiltinCall(call, "len") {
+			return false
+		}
+		if _, fld, ok := fieldLoad(strip(call.Call.Args[0])); !ok || fld.Name() != "AllowedDomains" {
+			return false
+		}
+		n, ok := constInt(x.Y)
+		if !ok {
+			return false
+		}
+		return (x.Op == token.EQL && n == 0) || (x.Op == token.LEQ && n == 0) || (x.Op == token.LSS && n == 1)
+	}
+	isNoFunc := func(f condFact) bool {
+		x, ok := f.Cond.(*ssa.BinOp)
+		if !ok || !f.Pol || x.Op != token.EQL {
+			return false
+		}
+		var v ssa.Value
+		if isNilConst(x.Y) {
+			v = x.X
+		} else if isNilConst(x.X) {
+			v = x.Y
+		} else {
+			return false
+		}
+		_, fld, ok := fieldLoad(strip(v))
+		return ok && fld.Name() == "AllowedDomainFunc"
+	}
+	emptyRefusedIn := func(fs map[condFact]bool) bool {
+		for f := range fs {
+			x, ok := f.Cond.(*ssa.BinOp)
+			if !ok || !f.Pol {
+				continue
+			}
+			if call, ok := strip(x.X).(*ssa.Call); ok && isBuiltinCall(call, "len") && call.Call.Args[0] == ssa.Value(origin) {
+				if n, ok := constInt(x.Y); ok && ((x.Op == token.NEQ && n == 0) || (x.Op == token.GTR && n == 0) || (x.Op == token.GEQ && n == 1)) {
 					return true
 				}
 			}
-			// logging
-			if cc.IsInvoke() && isNamed(cc.Value.Type(), modulePath+"/log", "StdLogger") {
-				return true
-			}
-			return false
-		}
-		tainted, bad := wholeStringTaint(p, fn, origin, allowEq, allowCall)
-		if len(bad) == 0 {
-			c.ok(name, "origin used through whole-string operations only", p.pos(fn.Pos()), itoa(len(tainted))+" derived value(s): len, case mapping, equality with a whole AllowedDomains entry, the configured predicate")
-		}
-		for _, b := range bad {
-			c.bad(name, "origin used by a partial-match capable operation", p.ipos(b.Instr), b.What+": an origin that merely contains, starts or ends with an allowed entry could be accepted")
-		}
-		// every "true" is justified
-		facts := factsAt(fn)
-		isWholeEq := func(f condFact) bool {
-			if !f.Pol {
-				return false
-			}
-			switch x := f.Cond.(type) {
-			case *ssa.BinOp:
-				if x.Op != token.EQL {
-					return false
-				}
-				return (tainted[strip(x.X)] && isEntry(x.Y)) || (tainted[strip(x.Y)] && isEntry(x.X))
-			case *ssa.Call:
-				if calleeName(&x.Call) == "strings.EqualFold" {
-					a, b := x.Call.Args[0], x.Call.Args[1]
-					return (tainted[strip(a)] && isEntry(b)) || (tainted[strip(b)] && isEntry(a))
-				}
-			}
-			return false
-		}
-		isWildcard := func(f condFact) bool {
-			if !f.Pol {
-				return false
-			}
-			x, ok := f.Cond.(*ssa.BinOp)
-			if !ok || x.Op != token.EQL {
-				return false
-			}
-			for _, pr := range [][2]ssa.Value{{x.X, x.Y}, {x.Y, x.X}} {
-				if s, ok := constStr(pr[0]); ok && s == ".*" && isElementOfField(strip(pr[1]), "AllowedDomains") {
+			if x.X == ssa.Value(origin) && x.Op == token.NEQ {
+				if s, ok := constStr(x.Y); ok && s == "" {
 					return true
 				}
 			}
-			return false
 		}
-		isNoList := func(f condFact) bool {
-			x, ok := f.Cond.(*ssa.BinOp)
+		return false
+	}
+	sufficient := func(fs map[condFact]bool) (bool, string) {
+		noList, noFunc := false, false
+		for f := range fs {
+			if isWholeEq(f) {
+				return true, "whole-string equality with an AllowedDomains entry (or a verified helper's answer)"
+			}
+			if isWildcard(f) {
+				return true, "the wildcard entry"
+			}
+			if isNoList(f) {
+				noList = true
+			}
+			if isNoFunc(f) {
+				noFunc = true
+			}
+		}
+		if noList && noFunc {
+			return true, "no restriction configured"
+		}
+		return false, ""
+	}
+	union := func(ms ...map[condFact]bool) map[condFact]bool {
+		out := map[condFact]bool{}
+		for _, m := range ms {
+			for f := range m {
+				out[f] = true
+			}
+		}
+		return out
+	}
+	edgeFacts := func(pr, b *ssa.BasicBlock) map[condFact]bool {
+		m := map[condFact]bool{}
+		if iff, ok := pr.Instrs[len(pr.Instrs)-1].(*ssa.If); ok && pr.Succs[0] != pr.Succs[1] {
+			addCondFacts(m, iff.Cond, pr.Succs[0] == b)
+			deriveFacts(m)
+		}
+		return m
+	}
+	var justifiedBlock func(b *ssa.BasicBlock, extra map[condFact]bool, depth int) (bool, string)
+	justifiedBlock = func(b *ssa.BasicBlock, extra map[condFact]bool, depth int) (bool, string) {
+		if ok, why := sufficient(union(facts[b], extra)); ok {
+			return true, why
+		}
+		if depth > 4 || len(b.Preds) == 0 {
+			return false, "block " + b.String() + " is reachable without a whitelisted condition"
+		}
+		reason := ""
+		for _, pr := range b.Preds {
+			ok, why := justifiedBlock(pr, union(extra, edgeFacts(pr, b)), depth+1)
 			if !ok {
-				return false
+				return false, why
 			}
-			call, ok := strip(x.X).(*ssa.Call)
-			if !ok || !isBuiltinCall(call, "len") {
-				return false
-			}
-			if _, fld, ok := fieldLoad(strip(call.Call.Args[0])); !ok || fld.Name() != "AllowedDomains" {
-				return false
-			}
-			n, ok := constInt(x.Y)
-			if !ok || n != 0 {
-				return false
-			}
-			return (x.Op == token.EQL && f.Pol) || (x.Op == token.NEQ && !f.Pol) || (x.Op == token.GTR && !f.Pol)
+			reason = why
 		}
-		isNoFunc := func(f condFact) bool {
-			x, ok := f.Cond.(*ssa.BinOp)
-			if !ok {
-				return false
+		return true, reason
+	}
+	// the function is only entered for a non-empty origin when it is a helper (the caller refused empty first)
+	needEmptyCheck := depth == 0
+	var evalResult func(v ssa.Value, at *ssa.BasicBlock, extra map[condFact]bool, r *ssa.Return, visiting map[ssa.Value]bool) (bool, string)
+	evalResult = func(v ssa.Value, at *ssa.BasicBlock, extra map[condFact]bool, r *ssa.Return, visiting map[ssa.Value]bool) (bool, string) {
+		v = strip(v)
+		if b, ok := constBool(v); ok {
+			if !b {
+				return true, "refusal"
 			}
-			var v ssa.Value
-			if isNilConst(x.Y) {
-				v = x.X
-			} else if isNilConst(x.X) {
-				v = x.Y
-			} else {
-				return false
+			ok, why := justifiedBlock(at, extra, 0)
+			if ok && needEmptyCheck && !emptyRefusedIn(union(facts[at], extra, facts[r.Block()])) {
+				return false, "'allowed' can be answered for an empty origin"
 			}
-			if _, fld, ok := fieldLoad(strip(v)); !ok || fld.Name() != "AllowedDomainFunc" {
-				return false
-			}
-			return (x.Op == token.EQL && f.Pol) || (x.Op == token.NEQ && !f.Pol)
+			return ok, why
 		}
-		emptyRefused := func(b *ssa.BasicBlock) bool {
-			for f := range facts[b] {
-				x, ok := f.Cond.(*ssa.BinOp)
-				if !ok {
-					continue
+		switch x := v.(type) {
+		case *ssa.Call:
+			if isDynamicCall(&x.Call) {
+				if _, f, okf := fieldLoad(strip(x.Call.Value)); okf && f.Name() == "AllowedDomainFunc" && len(x.Call.Args) == 1 && (tainted[strip(x.Call.Args[0])] || tainted[x.Call.Args[0]]) {
+					return true, "the configured predicate decides"
 				}
-				if call, ok := strip(x.X).(*ssa.Call); ok && isBuiltinCall(call, "len") && call.Call.Args[0] == ssa.Value(origin) {
-					if n, ok := constInt(x.Y); ok && n == 0 && ((x.Op == token.EQL && !f.Pol) || (x.Op == token.NEQ && f.Pol) || (x.Op == token.GTR && f.Pol)) {
-						return true
-					}
-				}
-				if (x.X == ssa.Value(origin) || x.Y == ssa.Value(origin)) && (x.Op == token.EQL && !f.Pol || x.Op == token.NEQ && f.Pol) {
-					if s, ok := constStr(x.X); ok && s == "" {
-						return true
-					}
-					if s, ok := constStr(x.Y); ok && s == "" {
-						return true
-					}
-				}
+				return false, "the answer comes from an unexpected call"
 			}
-			return false
-		}
-		var justified func(b *ssa.BasicBlock, depth int) (bool, string)
-		justified = func(b *ssa.BasicBlock, depth int) (bool, string) {
-			noList, noFunc := false, false
-			for f := range facts[b] {
-				if isWholeEq(f) {
-					return true, "whole-string equality with an AllowedDomains entry"
-				}
-				if isWildcard(f) {
-					return true, "the wildcard entry"
-				}
-				if isNoList(f) {
-					noList = true
-				}
-				if isNoFunc(f) {
-					noFunc = true
-				}
+			if helperCalls[x] {
+				return true, "a verified helper decides"
 			}
-			if noList && noFunc {
-				return true, "no restriction configured"
+			if calleeName(&x.Call) == "strings.EqualFold" && isWholeEq(condFact{x, true}) {
+				return true, "whole-string comparison"
 			}
-			if depth > 4 || len(b.Preds) == 0 {
-				return false, "block " + b.String() + " is reachable without a whitelisted condition"
+			return false, "the answer comes from " + shortCallee(&x.Call)
+		case *ssa.BinOp:
+			if isWholeEq(condFact{x, true}) {
+				return true, "whole-string comparison"
 			}
-			// every incoming edge must be justified by its own edge condition or by its source block
+			return false, "computed answer " + x.String()
+		case *ssa.Phi:
+			if visiting[v] {
+				return true, ""
+			}
+			visiting[v] = true
 			reason := ""
-			for _, pr := range b.Preds {
-				edgeOK := false
-				if iff, ok := pr.Instrs[len(pr.Instrs)-1].(*ssa.If); ok && pr.Succs[0] != pr.Succs[1] {
-					m := map[condFact]bool{}
-					addCondFacts(m, iff.Cond, pr.Succs[0] == b)
-					for f := range m {
-						if isWholeEq(f) || isWildcard(f) {
-							edgeOK = true
-							reason = "whole-string equality or the wildcard entry on every incoming edge"
-						}
-					}
+			for k, e := range x.Edges {
+				pr := x.Block().Preds[k]
+				ok, why := evalResult(e, pr, union(extra, edgeFacts(pr, x.Block()), facts[r.Block()]), r, visiting)
+				if !ok {
+					return false, why
 				}
-				if !edgeOK {
-					ok, why := justified(pr, depth+1)
-					if !ok {
-						return false, why
-					}
-					reason = why
-				}
+				reason = why
 			}
 			return true, reason
 		}
-		for _, r := range returnsOf(fn) {
-			v := strip(r.Results[0])
-			if b, ok := constBool(v); ok {
-				if !b {
-					continue
-				}
-				ok, why := justified(r.Block(), 0)
-				c.check(ok && emptyRefused(r.Block()), name, "answer 'allowed' is justified", p.ipos(r), why+"; an empty origin was refused before",
-					"'return true' is reachable without a whitelisted reason ("+why+") or for an empty origin")
-				continue
-			}
-			if call, ok := v.(*ssa.Call); ok && isDynamicCall(&call.Call) {
-				_, f, okf := fieldLoad(strip(call.Call.Value))
-				c.check(okf && f.Name() == "AllowedDomainFunc" && len(call.Call.Args) == 1 && tainted[strip(call.Call.Args[0])] && emptyRefused(r.Block()), name, "answer delegated to the configured predicate", p.ipos(r),
-					"returns AllowedDomainFunc(origin)", "the answer comes from an unexpected call")
-				continue
-			}
-			if call, ok := v.(*ssa.Call); ok && calleeName(&call.Call) == "strings.EqualFold" {
-				ok := isWholeEq(condFact{call, true})
-				c.check(ok, name, "answer is a whole-string comparison", p.ipos(r), "EqualFold with a whole entry", "the returned comparison is not a whole-entry comparison")
-				continue
-			}
-			c.undecided(name, "answer "+v.Name(), p.ipos(r), "cannot justify a computed boolean answer: "+v.String())
-		}
+		return false, "cannot justify " + v.String()
 	}
+	for _, r := range returnsOf(fn) {
+		ok, why := evalResult(r.Results[0], r.Block(), nil, r, map[ssa.Value]bool{})
+		if b, isC := constBool(r.Results[0]); isC && !b {
+			continue
+		}
+		if !ok {
+			okAll = false
+		}
+		c.check(ok, name, "answer 'allowed' is justified", p.ipos(r), why, "'allowed' can be answered without a whitelisted reason ("+why+")")
+	}
+	return okAll
+}
+
+func isBoolFunc(fn *ssa.Function) bool {
+	res := fn.Signature.Results()
+	if res.Len() != 1 {
+		return false
+	}
+	b, ok := res.At(0).Type().Underlying().(*types.Basic)
+	return ok && b.Kind() == types.Bool
 }
 
 // isElementOfField: v is an element (by index or range) of a slice loaded from the named field.
@@ -680,11 +782,15 @@ const (
 )
 
 func classifyCorsBlock(p *Program, fn *ssa.Function, b *ssa.BasicBlock, facts map[*ssa.BasicBlock]map[condFact]bool, preds []*ssa.Function) corsBranch {
+	return classifyCorsFacts(p, fn, facts[b], preds)
+}
+
+func classifyCorsFacts(p *Program, fn *ssa.Function, fs map[condFact]bool, preds []*ssa.Function) corsBranch {
 	rq := requestParam(fn)
 	allowed, refused, noOrigin := false, false, false
 	optFalse, optTrue := false, false // Method == OPTIONS known true / false
 	acrm, noAcrm := false, false
-	for f := range facts[b] {
+	for f := range fs {
 		if req, ok := originAllowedFact(p, f, preds); ok && p.sameValue(req, rq) {
 			if f.Pol {
 				allowed = true
@@ -752,86 +858,128 @@ func isProcessFilterCall(i ssa.Instruction) bool {
 	return cc != nil && cc.StaticCallee() != nil && cc.StaticCallee().Name() == "ProcessFilter" && recvTypeName(cc.StaticCallee()) == "FilterChain"
 }
 
+// corsPathInfo: one acyclic path through the filter entry, classified by the conditions along it.
+type corsPathInfo struct {
+	Path   cfgPath
+	Branch corsBranch
+	PF     []ssa.Instruction // ProcessFilter calls, in order
+	Calls  []ssa.Instruction // other effectful calls (helpers of the CORS type, header writes, unknown calls)
+	Ret    *ssa.Return
+}
+
+func corsPaths(p *Program, fn *ssa.Function, preds []*ssa.Function) ([]corsPathInfo, bool) {
+	paths, ok := enumPaths(fn, nil, 4000)
+	if !ok {
+		return nil, false
+	}
+	var out []corsPathInfo
+	for _, pa := range paths {
+		info := corsPathInfo{Path: pa, Branch: classifyCorsFacts(p, fn, pa.Facts, preds)}
+		for _, i := range pa.instrs() {
+			if r, ok := i.(*ssa.Return); ok {
+				info.Ret = r
+			}
+			cc := callCommon(i)
+			if cc == nil {
+				continue
+			}
+			if isProcessFilterCall(i) {
+				info.PF = append(info.PF, i)
+				continue
+			}
+			if cc.IsInvoke() && isNamed(cc.Value.Type(), modulePath+"/log", "StdLogger") {
+				continue
+			}
+			if _, isB := cc.Value.(*ssa.Builtin); isB {
+				continue
+			}
+			if n := calleeName(cc); n == "(net/http.Header).Get" || strings.HasPrefix(n, "strings.") {
+				continue
+			}
+			if cal := cc.StaticCallee(); cal != nil {
+				isPred := false
+				for _, pr := range preds {
+					if cal == pr {
+						isPred = true
+					}
+				}
+				if isPred {
+					continue
+				}
+			}
+			info.Calls = append(info.Calls, i)
+		}
+		out = append(out, info)
+	}
+	return out, true
+}
+
+// callWritesHeaders: the call (or what it reaches in the module) writes a response header.
+func callWritesHeaders(p *Program, i ssa.Instruction) bool {
+	if _, _, _, ok := headerWrite(i); ok {
+		return true
+	}
+	cc := callCommon(i)
+	if cc == nil {
+		return false
+	}
+	cal := cc.StaticCallee()
+	if cal == nil || !p.inModule(cal) {
+		return true // unknown effect
+	}
+	w := false
+	for f := range p.callGraph().reach([]*ssa.Function{cal}, nil) {
+		eachInstr(f, func(j ssa.Instruction) {
+			if _, _, _, ok := headerWrite(j); ok {
+				w = true
+			}
+		})
+	}
+	return w
+}
+
 func ruleC08d(c *Ctx) {
 	p := c.P
 	entries, _ := corsFuncs(p)
 	preds := originPredicates(p)
-	cg := p.callGraph()
 	for _, fn := range entries {
 		name := p.fname(fn)
-		facts := factsAt(fn)
-		pf := map[ssa.Instruction]int{}
-		eachInstr(fn, func(i ssa.Instruction) {
-			if isProcessFilterCall(i) {
-				pf[i] = 1
-			}
-		})
-		seen := map[corsBranch]bool{}
-		for _, r := range returnsOf(fn) {
-			br := classifyCorsBlock(p, fn, r.Block(), facts, preds)
-			if br != brNoOrigin && br != brRefused {
-				continue
-			}
-			seen[br] = true
-			label := map[corsBranch]string{brNoOrigin: "no Origin header", brRefused: "refused origin"}[br]
-			min, max, ok := countWeighted(fn, nil, nil, pf, r)
-			c.check(ok && min == 1 && max == 1, name, "pass-through ("+label+"): chain continued exactly once", p.ipos(r), "ProcessFilter min = max = 1 on every path to this return", "ProcessFilter runs min="+itoa(min)+" max="+maxStr(max)+" times on the "+label+" branch")
+		infos, ok := corsPaths(p, fn, preds)
+		if !ok {
+			c.undecided(name, "paths through the CORS filter", p.pos(fn.Pos()), "too many paths to enumerate")
+			continue
 		}
 		for _, br := range []corsBranch{brNoOrigin, brRefused} {
-			if !seen[br] {
-				c.bad(name, "pass-through branch missing", p.pos(fn.Pos()), "no return is reached under the "+map[corsBranch]string{brNoOrigin: "no-Origin", brRefused: "refused-origin"}[br]+" condition: the filter does not behave as if absent there")
+			label := map[corsBranch]string{brNoOrigin: "no Origin header", brRefused: "refused origin"}[br]
+			n, badCount, badEffect, badArgs := 0, "", "", ""
+			for _, in := range infos {
+				if in.Branch != br {
+					continue
+				}
+				n++
+				if len(in.PF) != 1 {
+					badCount = "ProcessFilter runs " + itoa(len(in.PF)) + " times on the path ending at " + p.ipos(in.Ret)
+				}
+				for _, pf := range in.PF {
+					for _, a := range callCommon(pf).Args {
+						if _, isParam := strip(a).(*ssa.Parameter); !isParam {
+							badArgs = "ProcessFilter at " + p.ipos(pf) + " does not receive the filter's own request/response/chain"
+						}
+					}
+				}
+				for _, cl := range in.Calls {
+					if callWritesHeaders(p, cl) {
+						badEffect = calleeOrValue(callCommon(cl)) + " at " + p.ipos(cl) + " runs on this branch"
+					}
+				}
 			}
-		}
-		// in those regions: only logging and ProcessFilter(req, resp) with own parameters; no grant reachable
-		for _, b := range fn.Blocks {
-			br := classifyCorsBlock(p, fn, b, facts, preds)
-			if br != brNoOrigin && br != brRefused {
+			if n == 0 {
+				c.bad(name, "pass-through branch ("+label+") missing", p.pos(fn.Pos()), "no path through the filter is taken under the "+label+" condition: the filter does not behave as if absent there")
 				continue
 			}
-			for _, i := range b.Instrs {
-				cc := callCommon(i)
-				if cc == nil {
-					continue
-				}
-				if isProcessFilterCall(i) {
-					okArgs := len(cc.Args) == 3 && isPtrToRestful(cc.Args[0].Type(), "FilterChain")
-					for k, a := range cc.Args {
-						if _, isParam := strip(a).(*ssa.Parameter); !isParam {
-							okArgs = false
-						}
-						_ = k
-					}
-					c.check(okArgs, name, "pass-through continues with the filter's own request, response and chain", p.ipos(i), "ProcessFilter(req, resp) on the chain parameter", "the chain is continued with other objects")
-					continue
-				}
-				if cc.IsInvoke() && isNamed(cc.Value.Type(), modulePath+"/log", "StdLogger") {
-					continue
-				}
-				if _, isB := cc.Value.(*ssa.Builtin); isB {
-					continue
-				}
-				if n := calleeName(cc); n == "(net/http.Header).Get" {
-					continue
-				}
-				// anything else: must not reach a header write
-				writes := false
-				if cal := cc.StaticCallee(); cal != nil && p.inModule(cal) {
-					for f := range cg.reach([]*ssa.Function{cal}, nil) {
-						eachInstr(f, func(j ssa.Instruction) {
-							if _, _, _, ok := headerWrite(j); ok {
-								writes = true
-							}
-						})
-					}
-				} else if _, _, _, ok := headerWrite(i); ok {
-					writes = true
-				} else {
-					writes = true // unknown effectful call
-				}
-				if writes {
-					c.bad(name, "effect on a pass-through branch", p.ipos(i), "a request without Origin or from a refused origin must be processed as if the filter were absent, but "+shortCallee(cc)+" runs here")
-				}
-			}
+			c.check(badCount == "", name, "pass-through ("+label+"): chain continued exactly once", p.pos(fn.Pos()), "exactly one ProcessFilter on each of the "+itoa(n)+" path(s)", badCount)
+			c.check(badArgs == "", name, "pass-through ("+label+"): continues with the filter's own request, response and chain", p.pos(fn.Pos()), "ProcessFilter(req, resp) on the chain parameter", badArgs)
+			c.check(badEffect == "", name, "pass-through ("+label+"): no other effect", p.pos(fn.Pos()), "only logging besides ProcessFilter", "a request without Origin or from a refused origin must be processed as if the filter were absent, but "+badEffect)
 		}
 	}
 }
@@ -846,80 +994,81 @@ func ruleC09a(c *Ctx) {
 	cg := p.callGraph()
 	for _, fn := range entries {
 		name := p.fname(fn)
-		facts := factsAt(fn)
-		pf := map[ssa.Instruction]int{}
-		eachInstr(fn, func(i ssa.Instruction) {
-			if isProcessFilterCall(i) {
-				pf[i] = 1
-			}
-		})
-		seen := map[corsBranch]bool{}
-		for _, r := range returnsOf(fn) {
-			br := classifyCorsBlock(p, fn, r.Block(), facts, preds)
-			switch br {
+		infos, ok := corsPaths(p, fn, preds)
+		if !ok {
+			c.undecided(name, "paths through the CORS filter", p.pos(fn.Pos()), "too many paths to enumerate")
+			continue
+		}
+		nPre, nAct := 0, 0
+		badPre, badAct, badOrder, unknown := "", "", "", ""
+		for _, in := range infos {
+			switch in.Branch {
 			case brPreflight:
-				seen[br] = true
-				_, max, _ := countWeighted(fn, nil, nil, pf, r)
-				// also nothing in the callees of that branch continues the chain
-				deep := false
-				for _, b := range fn.Blocks {
-					if classifyCorsBlock(p, fn, b, facts, preds) != brPreflight {
-						continue
-					}
-					for _, i := range b.Instrs {
-						if cc := callCommon(i); cc != nil {
-							if cal := cc.StaticCallee(); cal != nil && p.inModule(cal) && !isProcessFilterCall(i) {
-								for f := range cg.reach([]*ssa.Function{cal}, nil) {
-									eachInstr(f, func(j ssa.Instruction) {
-										if isProcessFilterCall(j) {
-											deep = true
-										}
-									})
+				nPre++
+				if len(in.PF) != 0 {
+					badPre = "ProcessFilter at " + p.ipos(in.PF[0]) + " runs on a preflight path"
+				}
+				for _, cl := range in.Calls {
+					if cal := callCommon(cl).StaticCallee(); cal != nil && p.inModule(cal) {
+						for f := range cg.reach([]*ssa.Function{cal}, nil) {
+							eachInstr(f, func(j ssa.Instruction) {
+								if isProcessFilterCall(j) {
+									badPre = p.fname(f) + " (called on the preflight path) continues the chain"
 								}
-							}
+							})
 						}
 					}
 				}
-				c.check(max == 0 && !deep, name, "preflight is answered by the filter alone", p.ipos(r), "no ProcessFilter on any path to this return, nor in the helpers called on the preflight branch",
-					"a preflight request continues the chain: later filters or a route function run for it")
 			case brActual:
-				seen[br] = true
-				min, max, ok := countWeighted(fn, nil, nil, pf, r)
-				c.check(ok && min == 1 && max == 1, name, "actual request from an allowed origin continues the chain exactly once", p.ipos(r), "min = max = 1", "ProcessFilter runs min="+itoa(min)+" max="+maxStr(max)+" times")
-			case brUnknown:
-				c.undecided(name, "unclassified exit of the CORS filter", p.ipos(r), "cannot tell from the dominating conditions whether this exit is the no-origin, refused, preflight or actual-request case")
-			}
-		}
-		if !seen[brPreflight] {
-			c.bad(name, "preflight branch", p.pos(fn.Pos()), "no exit is reached under OPTIONS + Access-Control-Request-Method + allowed origin")
-		}
-		if !seen[brActual] {
-			c.bad(name, "actual-request branch", p.pos(fn.Pos()), "no exit is reached for a non-preflight request from an allowed origin")
-		}
-		// actual headers are added before the chain continues
-		for _, b := range fn.Blocks {
-			if classifyCorsBlock(p, fn, b, facts, preds) != brActual {
-				continue
-			}
-			var pfI ssa.Instruction
-			grantsBefore := false
-			for _, i := range b.Instrs {
-				if isProcessFilterCall(i) {
-					pfI = i
+				nAct++
+				if len(in.PF) != 1 {
+					badAct = "ProcessFilter runs " + itoa(len(in.PF)) + " times on the path ending at " + p.ipos(in.Ret)
+					continue
 				}
-				if cc := callCommon(i); cc != nil && pfI == nil {
-					if cal := cc.StaticCallee(); cal != nil && recvTypeName(cal) == corsType {
-						if maxGrants(p, cal, "Access-Control-Allow-Origin", 0, map[*ssa.Function]int{}) > 0 {
-							grantsBefore = true
+				// the helper that adds Allow-Origin runs before the chain continues
+				before := false
+				for _, cl := range in.Calls {
+					if cal := callCommon(cl).StaticCallee(); cal != nil && recvTypeName(cal) == corsType {
+						if maxGrants(p, cal, "Access-Control-Allow-Origin", 0, map[*ssa.Function]int{}) > 0 && instrBeforeOnPath(in.Path, cl, in.PF[0]) {
+							before = true
 						}
 					}
 				}
+				if !before {
+					badOrder = "on the path ending at " + p.ipos(in.Ret) + " the chain continues before the CORS headers are added (they are lost once the handler writes)"
+				}
+			case brUnknown:
+				unknown = p.ipos(in.Ret)
 			}
-			if pfI != nil {
-				c.check(grantsBefore, name, "actual-request headers are added before the chain continues", p.ipos(pfI), "the helper that adds Allow-Origin runs before ProcessFilter", "the chain continues before the CORS headers are added (they are lost once the handler writes)")
-			}
+		}
+		if unknown != "" {
+			c.undecided(name, "unclassified path through the CORS filter", unknown, "cannot tell from the conditions along the path whether it is the no-origin, refused, preflight or actual-request case")
+		}
+		if nPre == 0 {
+			c.bad(name, "preflight branch", p.pos(fn.Pos()), "no path is taken under OPTIONS + Access-Control-Request-Method")
+		} else {
+			c.check(badPre == "", name, "preflight is answered by the filter alone", p.pos(fn.Pos()), "no ProcessFilter on any of the "+itoa(nPre)+" preflight path(s), nor in the helpers called there", badPre+": later filters or a route function run for a preflight request")
+		}
+		if nAct == 0 {
+			c.bad(name, "actual-request branch", p.pos(fn.Pos()), "no path is taken for a non-preflight request from an allowed origin")
+		} else {
+			c.check(badAct == "", name, "actual request from an allowed origin continues the chain exactly once", p.pos(fn.Pos()), "exactly one ProcessFilter on each of the "+itoa(nAct)+" path(s)", badAct)
+			c.check(badOrder == "", name, "actual-request headers are added before the chain continues", p.pos(fn.Pos()), "the helper that adds Allow-Origin precedes ProcessFilter on every such path", badOrder)
 		}
 	}
+}
+
+func instrBeforeOnPath(pa cfgPath, a, b ssa.Instruction) bool {
+	seenA := false
+	for _, i := range pa.instrs() {
+		if i == a {
+			seenA = true
+		}
+		if i == b {
+			return seenA
+		}
+	}
+	return false
 }
 
 // preflightFuncs: methods of the CORS type called from a preflight-classified block of the entry.
@@ -928,16 +1077,17 @@ func preflightFuncs(p *Program) []*ssa.Function {
 	preds := originPredicates(p)
 	var out []*ssa.Function
 	for _, fn := range entries {
-		facts := factsAt(fn)
-		for _, b := range fn.Blocks {
-			if classifyCorsBlock(p, fn, b, facts, preds) != brPreflight {
+		infos, ok := corsPaths(p, fn, preds)
+		if !ok {
+			continue
+		}
+		for _, in := range infos {
+			if in.Branch != brPreflight {
 				continue
 			}
-			for _, i := range b.Instrs {
-				if cc := callCommon(i); cc != nil {
-					if cal := cc.StaticCallee(); cal != nil && recvTypeName(cal) == corsType {
-						out = append(out, cal)
-					}
+			for _, cl := range in.Calls {
+				if cal := callCommon(cl).StaticCallee(); cal != nil && recvTypeName(cal) == corsType {
+					out = append(out, cal)
 				}
 			}
 		}
@@ -991,11 +1141,30 @@ func ruleC09b(c *Ctx) {
 				}
 			}
 		})
+		// the header loop may live in a helper given the whole header value
+		var headerHelper *ssa.Call
+		var acrhVal ssa.Value
+		if headerCheck == nil {
+			eachInstr(fn, func(i ssa.Instruction) {
+				call, ok := i.(*ssa.Call)
+				if !ok || call.Call.StaticCallee() == nil || !p.inModule(call.Call.StaticCallee()) || !isBoolResult(call) {
+					return
+				}
+				h := call.Call.StaticCallee()
+				for k, a := range call.Call.Args {
+					if req, ok := requestHeaderGet(p, a, "Access-Control-Request-Headers"); ok && p.sameValue(req, rq) && k < len(h.Params) {
+						if universalSplitScan(p, h, h.Params[k]) != nil {
+							headerHelper, acrhVal = call, strip(a)
+						}
+					}
+				}
+			})
+		}
 		if methodCheck == nil {
 			c.bad(name, "requested method is checked", p.pos(fn.Pos()), "no boolean check takes this request's Access-Control-Request-Method")
 		}
-		if headerCheck == nil {
-			c.bad(name, "requested headers are checked", p.pos(fn.Pos()), "no boolean check takes the elements of this request's Access-Control-Request-Headers")
+		if headerCheck == nil && headerHelper == nil {
+			c.bad(name, "requested headers are checked", p.pos(fn.Pos()), "no boolean check takes the elements of this request's Access-Control-Request-Headers (directly in a loop, or through a helper that checks every element)")
 		}
 		for _, g := range grants {
 			construct := "grant " + grantName(g)
@@ -1006,6 +1175,19 @@ func ruleC09b(c *Ctx) {
 			if headerCheck != nil {
 				ok, why := behindHeaderLoop(p, fn, headerCheck, g)
 				c.check(ok, name, construct+" after every requested header was checked", p.ipos(g), "only reachable through the exhaustion of the header loop (or when no header was requested)", why)
+			}
+			if headerHelper != nil {
+				paths, okp := enumPaths(fn, g.Block(), 2000)
+				okAll := okp
+				why := "too many paths"
+				for _, pa := range paths {
+					if pa.Facts[condFact{headerHelper, true}] || emptyStringFact(pa.Facts, acrhVal) {
+						continue
+					}
+					okAll = false
+					why = "a path reaches the grant without " + headerHelper.Call.StaticCallee().Name() + "(...) having answered true and without the header being empty"
+				}
+				c.check(okAll, name, construct+" after every requested header was checked", p.ipos(g), "every path carries "+headerHelper.Call.StaticCallee().Name()+"(headers) == true, or the header is empty", why)
 			}
 		}
 		// the list tested is the list granted
@@ -1032,7 +1214,7 @@ func ruleC09b(c *Ctx) {
 			c.check(same, name, "the method list tested is the list granted", p.ipos(methodCheck), "Allow-Methods = Join(<the list given to the method check>)", "Access-Control-Allow-Methods is built from a different list than the one the requested method was checked against")
 		}
 		// failed checks reach no grant
-		for _, chk := range []*ssa.Call{methodCheck, headerCheck} {
+		for _, chk := range []*ssa.Call{methodCheck, headerCheck, headerHelper} {
 			if chk == nil {
 				continue
 			}
@@ -1079,6 +1261,99 @@ func isBoolResult(call *ssa.Call) bool {
 }
 
 // derivesFromSplitOfHeader: v is (a trim of) an element of strings.Split(req...Header.Get(name), sep).
+// derivesFromSplitOf: v is (a trim of) an element of strings.Split(src, sep).
+func derivesFromSplitOf(v ssa.Value, src ssa.Value) bool {
+	v = strip(v)
+	for k := 0; k < 4; k++ {
+		call, ok := v.(*ssa.Call)
+		if !ok {
+			break
+		}
+		n := calleeName(&call.Call)
+		if strings.HasPrefix(n, "strings.Trim") || n == "strings.ToLower" {
+			v = strip(call.Call.Args[0])
+			continue
+		}
+		break
+	}
+	u, ok := v.(*ssa.UnOp)
+	if !ok || u.Op != token.MUL {
+		return false
+	}
+	ia, ok := u.X.(*ssa.IndexAddr)
+	if !ok {
+		return false
+	}
+	call, ok := strip(ia.X).(*ssa.Call)
+	if !ok || calleeName(&call.Call) != "strings.Split" {
+		return false
+	}
+	return strip(call.Call.Args[0]) == strip(src)
+}
+
+// universalSplitScan: h answers true only when every element of strings.Split(<param>, sep) passed a
+// boolean check: returns that check (the call inside the loop), or nil.
+func universalSplitScan(p *Program, h *ssa.Function, param *ssa.Parameter) *ssa.Call {
+	if h.Blocks == nil {
+		return nil
+	}
+	cyc := blocksOnCycles(h)
+	var check *ssa.Call
+	eachInstr(h, func(i ssa.Instruction) {
+		call, ok := i.(*ssa.Call)
+		if !ok || call.Call.StaticCallee() == nil || !isBoolResult(call) || !cyc[i.Block()] {
+			return
+		}
+		for _, a := range call.Call.Args {
+			if derivesFromSplitOf(a, param) {
+				check = call
+			}
+		}
+	})
+	if check == nil {
+		return nil
+	}
+	iff, ok := check.Block().Instrs[len(check.Block().Instrs)-1].(*ssa.If)
+	if !ok || condRoot(iff.Cond) != ssa.Value(check) {
+		return nil
+	}
+	pol := true
+	for cnd := iff.Cond; ; {
+		u, ok := cnd.(*ssa.UnOp)
+		if !ok || u.Op != token.NOT {
+			break
+		}
+		cnd, pol = u.X, !pol
+	}
+	failSucc, passSucc := check.Block().Succs[1], check.Block().Succs[0]
+	if !pol {
+		failSucc, passSucc = passSucc, failSucc
+	}
+	if pos, _ := canReachPositive(failSucc, check.Block()); pos {
+		return nil
+	}
+	var header *ssa.BasicBlock
+	for b := check.Block().Idom(); b != nil; b = b.Idom() {
+		if cyc[b] && reachableBlocks(check.Block().Succs, nil)[b] {
+			if _, ok := b.Instrs[len(b.Instrs)-1].(*ssa.If); ok {
+				header = b
+				break
+			}
+		}
+	}
+	if header == nil {
+		return nil
+	}
+	for b := range reachableBlocks([]*ssa.BasicBlock{passSucc}, map[*ssa.BasicBlock]bool{header: true}) {
+		if r, ok := b.Instrs[len(b.Instrs)-1].(*ssa.Return); ok {
+			if v, isC := constBool(r.Results[0]); !isC || v {
+				return nil
+			}
+		}
+	}
+	return check
+}
+
 func derivesFromSplitOfHeader(p *Program, v ssa.Value, name string, rq ssa.Value) bool {
 	v = strip(v)
 	for k := 0; k < 4; k++ {
@@ -1156,6 +1431,28 @@ func ruleC09c(c *Ctx) {
 	var preds []*ssa.Function
 	for _, fn := range preflightFuncs(p) {
 		rq := requestParam(fn)
+		// helper form: H(headerValue) scanning Split(param)
+		eachInstr(fn, func(i ssa.Instruction) {
+			call, ok := i.(*ssa.Call)
+			if !ok || call.Call.StaticCallee() == nil || !p.inModule(call.Call.StaticCallee()) || !isBoolResult(call) {
+				return
+			}
+			h := call.Call.StaticCallee()
+			for k, a := range call.Call.Args {
+				if req, ok := requestHeaderGet(p, a, "Access-Control-Request-Headers"); ok && p.sameValue(req, rq) && k < len(h.Params) {
+					if chk := universalSplitScan(p, h, h.Params[k]); chk != nil {
+						preds = append(preds, chk.Call.StaticCallee())
+						trimmed := false
+						for _, ca := range chk.Call.Args {
+							if tc, ok := strip(ca).(*ssa.Call); ok && strings.HasPrefix(calleeName(&tc.Call), "strings.Trim") {
+								trimmed = true
+							}
+						}
+						c.check(trimmed, p.fname(h), "requested header name is trimmed before it is checked", p.ipos(chk), "strings.Trim* of the split element", "optional whitespace after ',' makes an allowed header look unknown (or the trim was dropped)")
+					}
+				}
+			}
+		})
 		eachInstr(fn, func(i ssa.Instruction) {
 			call, ok := i.(*ssa.Call)
 			if !ok || call.Call.StaticCallee() == nil || !isBoolResult(call) {
@@ -1331,13 +1628,41 @@ func ruleC09e(c *Ctx) {
 			n++
 			okReq := len(call.Call.Args) == 2 && rq != nil && p.sameValue(call.Call.Args[1], rq)
 			c.check(okReq, p.fname(fn), "allowed methods are computed for this request", p.ipos(i), "argument is the filter's own request", "the methods are computed for another request/URL")
-			recv := strip(call.Call.Args[0])
-			_, f, isField := fieldLoad(recv)
-			okC := (isField && f.Name() == "Container") || isLoadOfGlobal(recv, "DefaultContainer")
+			okC := true
+			nsrc := 0
+			for _, recv := range p.sources(call.Call.Args[0], provDefault) {
+				nsrc++
+				_, f, isField := fieldLoad(recv)
+				if !((isField && f.Name() == "Container") || isLoadOfGlobal(recv, "DefaultContainer")) {
+					okC = false
+				}
+			}
+			okC = okC && nsrc > 0
 			c.check(okC, p.fname(fn), "allowed methods are computed on the configured or default container", p.ipos(i), "receiver is c.Container or DefaultContainer", "the methods come from an unrelated container")
 		})
 	}
 	if n == 0 {
 		c.note("-", "the CORS filter never computes allowed methods", "-", "only configured methods are used")
 	}
+}
+
+// emptyStringFact: the facts say that string v is empty (len(v) == 0, len(v) > 0 false, v == "").
+func emptyStringFact(fs map[condFact]bool, v ssa.Value) bool {
+	for f := range fs {
+		bo, ok := f.Cond.(*ssa.BinOp)
+		if !ok || !f.Pol {
+			continue
+		}
+		if call, ok := strip(bo.X).(*ssa.Call); ok && isBuiltinCall(call, "len") && strip(call.Call.Args[0]) == strip(v) {
+			if n, ok := constInt(bo.Y); ok && ((bo.Op == token.EQL && n == 0) || (bo.Op == token.LEQ && n == 0) || (bo.Op == token.LSS && n == 1)) {
+				return true
+			}
+		}
+		if strip(bo.X) == strip(v) && bo.Op == token.EQL {
+			if sv, ok := constStr(bo.Y); ok && sv == "" {
+				return true
+			}
+		}
+	}
+	return false
 }
